@@ -12,6 +12,16 @@ static void area(KdCtx *k, int *w, int *h) {
     int i = k->icase < 9 ? kr_range(k, 0, 21) : (k->icase % 22);
     *w = kd_bsizes[i][0], *h = kd_bsizes[i][1];
 }
+/* distortion kernels are also called on areas cropped at the picture boundary: any multiple of 4 up to the block size
+ * (e.g. a 20-wide chroma area when the luma width is 40 mod 64) */
+static void area_crop(KdCtx *k, int *w, int *h) {
+    if (kr_bool(k)) {
+        area(k, w, h);
+        return;
+    }
+    *w = 4 * kr_range(k, 1, 32);
+    *h = 4 * kr_range(k, 1, 32);
+}
 /* ME-stage areas: the pointers svt_unpack_avg / svt_unpack_avg_safe_sub / svt_picture_average_kernel1_line
  * have no caller left in this tree; their SIMD versions only implement widths up to 64 (and >= 8 for
  * safe_sub), which is also all the unit test (TEST_AVG_SIZES) exercises */
@@ -69,7 +79,7 @@ KDH(pic_avg1) {
 /* spatial full distortion (8-bit) / full_distortion_kernel16_bits (uint16 data behind uint8_t*) */
 KDH(sfd) {
     int w, h, is, rs;
-    area(k, &w, &h);
+    area_crop(k, &w, &h);
     int      io = kr_range(k, 0, 64), ro = kr_range(k, 0, 64);
     uint8_t *in = (uint8_t *)pic(k, w, h, 1, 255, &is, 0), *rc = (uint8_t *)pic(k, w, h, 1, 255, &rs, 0);
     ka(k, "w", w), ka(k, "h", h), ka(k, "input_offset", io), ka(k, "input_stride", is), ka(k, "recon_offset", ro), ka(k, "recon_stride", rs);
@@ -78,7 +88,7 @@ KDH(sfd) {
 }
 KDH(fd16) {
     int w, h, is, rs, bd = kr_bool(k) ? 10 : 8;
-    area(k, &w, &h);
+    area_crop(k, &w, &h);
     int       io = kr_range(k, 0, 64), ro = kr_range(k, 0, 64);
     uint16_t *in = (uint16_t *)pic(k, w, h, 2, (1 << bd) - 1, &is, 0), *rc = (uint16_t *)pic(k, w, h, 2, (1 << bd) - 1, &rs, 0);
     ka(k, "w", w), ka(k, "h", h), ka(k, "input_offset", io), ka(k, "input_stride", is), ka(k, "recon_offset", ro), ka(k, "recon_stride", rs),
